@@ -5,7 +5,7 @@
     [Storage.Syntax.parse_obj]) and their round trip is the C04 theorem, not a premise.  Elsewhere [ser], [parse_obj],
     [member] stay quantified (the theorems hold for any). *)
 From PdfV Require Import Base.Prelude Storage.Prim Storage.Model Storage.Proofs Storage.Syntax Storage.Run Storage.Tables.
-From PdfV Require Import Gen.Generated Storage.Reload.
+From PdfV Require Import Gen.Generated Storage.Reload Storage.LoadProofs.
 From PdfV Require Syn.Serialize Syn.Parser Syn.Spells Syn.SerProofs.
 
 (** Before any save, every read through the same open document already reflects each write: the reference
@@ -118,6 +118,32 @@ Theorem C09_reload_stream : forall member s tr s' tr' s3,
                raw_data (backend s3) (PStream d id g st (lenN data)) = Some data.
 Proof. exact reload_sees_stream. Qed.
 Print Assumptions C09_reload_stream.
+
+(** The reload glue.  `startxref`: on a file that ends with the trailer save writes, locate_xref_offset finds the
+    offset written there (the last `startxref`, the digits after it). *)
+Theorem C09_locate_xref : forall pre xpos, locate_xref_offset (pre ++ startxref_tail xpos) = Ok xpos.
+Proof. exact locate_xref_offset_tail. Qed.
+Print Assumptions C09_locate_xref.
+
+(** "Reloaded table = saved table": FileOptions::load on the bytes of a successful save — locate the header and
+    `startxref`, parse the cross-reference stream object at that offset with the parser model, look up /Type /Size /W
+    /Index, decode the rows, merge the section into XRefTable::new(/Size), follow /Prev (absent) — succeeds, and the
+    loaded state is over the saved bytes, without pending changes, with the same header offset, and its table agrees
+    with the saved table on every saved entry.  This is the hypothesis about [s3] in C09_reload, C09_reload_stream and
+    C09_reload_untouched.  Side conditions: no /Prev in the trailer (an older revision may override compressed entries:
+    C02's finding), table and file below the u64 / MAX_ID limits, the state's header offset is the one
+    locate_start_offset finds. *)
+Theorem C09_load_table : forall read_classic s tr s' tr' c,
+  wf_st s -> save Serialize.ser s tr = Ok (s', tr', None) -> t_prev tr = None ->
+  lenN (refs s) < 999998 -> table_in_range (refs s') ->
+  Forall wf_bytes (t_id tr) -> fst (t_root tr) < 2 ^ 64 -> snd (t_root tr) < 2 ^ 64 ->
+  locate_start_offset (backend s') = Ok (start s) ->
+  exists s3 td, load parse_obj read_classic (backend s') c = Ok (s3, td) /\
+    changes s3 = [] /\ backend s3 = backend s' /\ start s3 = start s /\
+    (forall i, i < lenN (refs s') -> nthN (refs s3) i = nthN (refs s') i) /\
+    dget td k_Size = Some (PInt (Z.of_N (lenN (refs s) + 2))).
+Proof. exact load_saved. Qed.
+Print Assumptions C09_load_table.
 
 (** ... and every untouched directly stored object to its previous value. *)
 Theorem C09_reload_untouched : forall ser parse_obj member s tr s' tr' s3,
